@@ -634,8 +634,19 @@ Varable failures: {var_failed}
 
     def _add2Varlist(self, varkeys):
         varliststr = getattr(self, 'VAR-LIST', '')
-        keys = [k for k in varliststr.split() if k in self.variables]
-        newkeys = set(varkeys).difference(keys + ['ETFLAG', 'TFLAG'])
+        if len(varliststr) % 16 == 0:
+            # fixed-width fields; names of 16 characters have no separator
+            listed = [
+                varliststr[i:i + 16].strip()
+                for i in range(0, len(varliststr), 16)
+            ]
+        else:
+            listed = varliststr.split()
+        keys = [k for k in listed if k in self.variables]
+        # names longer than a field cannot be listed and would misalign it
+        newkeys = set(
+            [k for k in varkeys if len(k) <= 16]
+        ).difference(keys + ['ETFLAG', 'TFLAG'])
         for varkey in varkeys:
             if varkey in newkeys:
                 varliststr += varkey.ljust(16)
